@@ -119,8 +119,12 @@ func boxHistoryOpt(c *vfCase, mon boxMonFlags, o boxOpts, genSeed, schedSeed uin
 		c.Logf("initial service: %s", boxSvcDump(cb.k.Store.Services[k]))
 	}
 	cb.booted = true
-	cb.k.Start()
 	var prev *boxQuiet
+	if mon.c03 {
+		// the statuses the store starts with are holdings like any other: the window of the boot is judged too
+		prev = cb.quietPoint()
+	}
+	cb.k.Start()
 	settle := func(events []string) bool {
 		if !cb.k.Settle(true, boxMaxSteps) {
 			if !cb.k.Fatal {
@@ -253,6 +257,12 @@ func (cb *cbox) stabilityWindow(prev, cur *boxQuiet, events []string) {
 		okGain := false
 		if !okSame && len(a) == 1 && len(b) == 2 && req.Policy == vfPolPrefer && (b[0] == a[0] || b[1] == a[0]) && cur.Cur != nil {
 			okGain = vfPoolOf(cur.Cur.Model, b) == vfPoolOf(cur.Cur.Model, a)
+		}
+		if okGain && len(req.ReqIPs) > 0 && !req.ReqBad && vfSameSet(req.ReqIPs, a) {
+			// the gain is only permitted where the result is still what the service asks for: a service that pins
+			// exactly the address it holds would lose everything at the next sync (request mismatch)
+			c.Violation("stability:gain-contradicts-own-request", fmt.Sprintf("%s held %v, exactly what it requests (%v), and was given an additional family: now %v, which its own request does not admit; spec: %s",
+				k, a, req.ReqIPs, b, boxSvcDump(cb.k.Store.Services[k])), nil)
 		}
 		if !okSame && !okGain && cb.gainedThenInadmissible(k, a, prev.Writes, req) {
 			c.Count("windows-with-gain-then-inadmissible-pair")
@@ -399,10 +409,43 @@ func (cb *cbox) crashOracle() {
 			if !vfShareCertain(rec.Reqs[k], rec.Reqs[o]) {
 				return true
 			}
+			if final[o] == nil && cb.touches[o]-rec.Touches[o] >= 2 {
+				// the co-holder was changed after the crash and deleted later: what it asked for in between
+				// (possibly something the two could not share) is not on record, nobody can be blamed
+				return true
+			}
 			if final[o] != nil {
 				fr := vfSvcRequirement(final[o])
 				if !vfShareCertain(rec.Reqs[k], &fr) {
 					return true
+				}
+			}
+		}
+		return false
+	}
+	// displacedBefore: before entry `at` of the allocator memory log after the crash, one of the addresses recorded
+	// for the service was given to a service that had not recorded it (the service was itself robbed in this restart,
+	// even when later events happen to bring it back to its recorded address)
+	displacedBefore := func(svc string, at int) bool {
+		for _, w := range cb.memLog[rec.MemLog : rec.MemLog+at] {
+			if w.Key == svc {
+				continue
+			}
+			for _, x := range w.IPs {
+				cx, _, _ := vfCanonIP(x)
+				own := false
+				for _, y := range rec.IPs[w.Key] {
+					if y == cx {
+						own = true
+					}
+				}
+				if own {
+					continue
+				}
+				for _, y := range rec.IPs[svc] {
+					if y == cx {
+						return true
+					}
 				}
 			}
 		}
@@ -434,6 +477,9 @@ func (cb *cbox) crashOracle() {
 		ok := vfSameSet(a, b)
 		if !ok && len(a) == 1 && len(b) == 2 && fr.Policy == vfPolPrefer && (b[0] == a[0] || b[1] == a[0]) {
 			ok = vfPoolOf(cb.cur.Model, b) == vfPoolOf(cb.cur.Model, a)
+			if q := rec.Reqs[k]; ok && len(q.ReqIPs) > 0 && !q.ReqBad && vfSameSet(q.ReqIPs, a) {
+				ok = false // it pins exactly what it had recorded: the pair is not what it asks for
+			}
 		}
 		if !ok && cb.gainedThenInadmissible(k, a, rec.Writes, rec.Reqs[k]) {
 			c.Count("recorded-services-that-gained-a-family-which-later-became-inadmissible")
@@ -450,10 +496,12 @@ func (cb *cbox) crashOracle() {
 		{
 			// who took it? (first change of the allocator memory after the crash that gave one of the addresses to another service)
 			thief, how, phase := "", "dropped", ""
-			for _, w := range cb.memLog[rec.MemLog:] {
+			thiefAt := 0
+			for wi, w := range cb.memLog[rec.MemLog:] {
 				if w.Key == k || thief != "" {
 					continue
 				}
+				thiefAt = wi
 				for _, x := range w.IPs {
 					cx, _, _ := vfCanonIP(x)
 					recorded := false // a sharer re-adopting the address it had recorded itself is no thief
@@ -472,7 +520,7 @@ func (cb *cbox) crashOracle() {
 			}
 			if thief != "" {
 				switch {
-				case victims[thief]:
+				case victims[thief] || displacedBefore(thief, thiefAt):
 					how = "taken-by-displaced-service"
 				case len(rec.IPs[thief]) == 0:
 					how = "taken-by-unrecorded-service"
@@ -486,6 +534,11 @@ func (cb *cbox) crashOracle() {
 						how = "taken-as-additional-family-by-recorded-service"
 					}
 				}
+			}
+			if thief != "" && phase == "during-first-full-sync" && len(rec.IPs[thief]) > 0 && len(a) > len(rec.IPs[thief]) && untouched(thief) {
+				// the first full sync visits the services holding more addresses first, so the known weakness can
+				// only rob a service of an address in favour of one that is visited no later than it
+				how += ":from-service-that-is-visited-earlier"
 			}
 			if thief != "" && phase != "during-first-full-sync" {
 				// the known weakness lives inside the first full sync only; anything else is another defect
